@@ -364,12 +364,11 @@ func runC13_6(c *Ctx) {
 	for _, name := range []string{"Push", "AsyncCall"} {
 		fn := p.Fn(Root, "session", name)
 		ws := CallsTo(fn, write)
-		if len(ws) != 1 {
-			c.Undec(name+" retry", p.Pos(fn.Pos()), fmt.Sprintf("expected one session.write, found %d", len(ws)))
+		if len(ws) == 0 {
+			c.Undec(name+" retry", p.Pos(fn.Pos()), "no session.write found")
 			continue
 		}
-		w := ws[0]
-		isW := func(i ssa.Instruction) bool { return i == w.(ssa.Instruction) }
+		isW := func(i ssa.Instruction) bool { return IsCallTo(i, write) }
 		// the blocks through which the retry passes
 		var redialTrue, sentinelTrue *ssa.BasicBlock
 		for _, e := range CondCallEdges(fn, redial) {
@@ -381,18 +380,25 @@ func runC13_6(c *Ctx) {
 				continue
 			}
 			bo, ok := ifi.Cond.(*ssa.BinOp)
-			if !ok || bo.Op != token.EQL {
+			if !ok || (bo.Op != token.EQL && bo.Op != token.NEQ) {
 				continue
 			}
 			if IsLoadOfGlobal(bo.Y, connClosed) || IsLoadOfGlobal(bo.X, connClosed) {
 				sentinelTrue = b.Succs[0]
+				if bo.Op == token.NEQ {
+					sentinelTrue = b.Succs[1]
+				}
 			}
 		}
 		ok := redialTrue != nil && sentinelTrue != nil
 		if ok {
-			// with the redial-true edge removed, write cannot reach itself
-			again := p.ReachableFrom(w, isW, nil, func(b *ssa.BasicBlock, k int) bool { return b.Succs[k] != redialTrue || !strings.HasPrefix(b.Succs[k].Comment, "") || !isCondTrueEdge(b, redial) })
-			ok = len(again) == 0
+			// with the redial-true edge removed, no write can be followed by a write
+			for _, w := range ws {
+				again := p.ReachableFrom(w, isW, nil, func(b *ssa.BasicBlock, k int) bool { return !(b.Succs[k] == redialTrue && isCondTrueEdge(b, redial)) })
+				if len(again) > 0 {
+					ok = false
+				}
+			}
 			// the redial test is made only on the sentinel edge
 			for _, e := range CondCallEdges(fn, redial) {
 				if !BlockDominatesInstr(sentinelTrue, e.Call) {
@@ -400,7 +406,13 @@ func runC13_6(c *Ctx) {
 				}
 			}
 			// and with it, it can (the retry exists)
-			if len(p.ReachableFrom(w, isW, nil, nil)) == 0 {
+			retry := false
+			for _, w := range ws {
+				if len(p.ReachableFrom(w, isW, nil, nil)) > 0 {
+					retry = true
+				}
+			}
+			if !retry {
 				ok = false
 			}
 		}
@@ -466,4 +478,115 @@ func runC13_7(c *Ctx) {
 	h := p.Fn(Root, "session", "Health")
 	hasNil := len(NilCmpEdges(h, func(v ssa.Value) bool { return isFieldLoad(v, sessN, rfIdx) })) > 0
 	c.Check(hasNil, "Health() treats a missing redial function as 'no redial'", p.Pos(h.Pos()), "nil test present", "Health() no longer distinguishes sessions without redial")
+}
+
+func init() {
+	text := "a call that was (re-)written successfully is pending with an OK status: on every path of AsyncCall that reaches postWriteCall, the last value stored in cmd.stat is known to be OK (it is the value whose OK() test led there) - a stale non-OK status left from a failed first attempt would make the reply path drop the reply and the disconnect path skip the call"
+	register(&Rule{ID: "C13.8", Prop: "C13", Min: 1, Text: text, Run: runWrittenCallStatusOK})
+	register(&Rule{ID: "C02.11", Prop: "C02", Min: 1, Text: text, Run: runWrittenCallStatusOK})
+}
+
+// staleValue stands for "the value a phi had in an earlier iteration".
+var staleValue ssa.Value = &ssa.Const{}
+
+func runWrittenCallStatusOK(c *Ctx) {
+	p := c.P
+	fn := p.Fn(Root, "session", "AsyncCall")
+	okM := p.MethodObj(statusPkg, "Status", "OK")
+	postWriteCall := p.MethodObj(Root, "pluginSingleContainer", "postWriteCall")
+	ccN, cstatIdx := p.FieldIndex(Root, "callCmd", "stat")
+	// per path: the last value stored to cmd.stat, and the set of values known OK / known non-OK
+	type state struct {
+		b      *ssa.BasicBlock
+		last   ssa.Value
+		okSet  string
+		badSet string
+	}
+	edges := map[*ssa.BasicBlock]CondEdge{}
+	for _, e := range CondCallEdges(fn, okM) {
+		edges[e.If.Block()] = e
+	}
+	addTo := func(set string, v ssa.Value) string {
+		n := v.Name()
+		if strings.Contains(set, "|"+n+"|") {
+			return set
+		}
+		return set + "|" + n + "|"
+	}
+	has := func(set string, v ssa.Value) bool {
+		return v != nil && v != staleValue && strings.Contains(set, "|"+v.Name()+"|")
+	}
+	seen := map[state]bool{}
+	bad := ""
+	reached := 0
+	var visit func(s state)
+	visit = func(s state) {
+		if seen[s] || len(seen) > 5000 {
+			return
+		}
+		seen[s] = true
+		last := s.last
+		okSet, badSet := s.okSet, s.badSet
+		// a phi denotes a new value each time its block is entered: facts about it (and a stored copy of
+		// its previous value) do not carry over
+		for _, in := range s.b.Instrs {
+			phi, isPhi := in.(*ssa.Phi)
+			if !isPhi {
+				break
+			}
+			okSet = strings.ReplaceAll(okSet, "|"+phi.Name()+"|", "")
+			badSet = strings.ReplaceAll(badSet, "|"+phi.Name()+"|", "")
+			if last == ssa.Value(phi) {
+				last = staleValue
+			}
+		}
+		for _, in := range s.b.Instrs {
+			if st, ok := in.(*ssa.Store); ok && isFieldAddr(st.Addr, ccN, cstatIdx) {
+				last = st.Val
+			}
+			if IsCallTo(in, postWriteCall) {
+				reached++
+				known := last != nil && last != staleValue && (IsNilConst(last) || has(okSet, last))
+				if !known {
+					what := "<never stored>"
+					if last == staleValue {
+						what = "a value from an earlier loop iteration (the failed attempt)"
+					} else if last != nil {
+						what = last.Name() + " = " + last.String()
+						if has(badSet, last) {
+							what += " (known non-OK)"
+						}
+					}
+					bad = fmt.Sprintf("postWriteCall at %s is reachable with cmd.stat last assigned %s, which is not the value whose OK() test succeeded", p.InstrPos(in), what)
+				}
+				return
+			}
+			switch in.(type) {
+			case *ssa.Return, *ssa.Panic:
+				return
+			}
+		}
+		for k, succ := range s.b.Succs {
+			ns := state{succ, last, okSet, badSet}
+			if e, ok := edges[s.b]; ok {
+				// receiver: the value itself, or a load of cmd.stat (then it denotes `last`)
+				recv := e.Recv
+				if isFieldLoad(recv, ccN, cstatIdx) {
+					recv = last
+				}
+				if recv != nil && recv != staleValue {
+					if succ == e.True && EdgeIndex(s.b, e.True) == k {
+						ns.okSet = addTo(okSet, recv)
+					} else {
+						ns.badSet = addTo(badSet, recv)
+					}
+				}
+			}
+			visit(ns)
+		}
+	}
+	visit(state{fn.Blocks[0], nil, "", ""})
+	c.fact("path-search(last-store tracking)")
+	c.Check(bad == "" && reached > 0, "AsyncCall: a written call keeps an OK status", p.Pos(fn.Pos()), fmt.Sprintf("every path to postWriteCall has cmd.stat known OK (%d states)", len(seen)),
+		"AsyncCall can consider a call written while cmd.stat still holds a non-OK or unchecked status: "+bad+" - the reply for that call is then refused as 'already completed' and a disconnect does not cancel it: the call never completes")
 }
